@@ -17,6 +17,12 @@ CONDS = [
          '5 documents (forms via html.parser/html5lib, plain, XHTML, XML) x 27 observed selectors x 140^3 histories '
          '(one scrambled symbolic index; 250 / 6000 histories per part)', timeout={'quick': 100, 'thorough': 900},
          parts={'quick': 4, 'thorough': 14}),
+    Cond('odd_attrs_unchanged_ok', 'attribute values that are lists with non-string items, bytes, None, numbers, nested lists: '
+         'the same objects with the same contents after select / match / filter / closest',
+         '7 odd attributes x 14 selectors x 4 entry-point groups', timeout={'quick': 60, 'thorough': 120}),
+    Cond('twins_ok', 'a document with distinct nodes of identical markup (twin forms, twin lists under different sections): '
+         'one select() agrees with match() per element, filter(iterable) and select() from sub-trees',
+         '13 selectors x 3 parsers', timeout={'quick': 60, 'thorough': 120}),
     Cond('state_restored_ok',
          'CSSMatch.namespaces / iframe_restrict are restored whenever match() returns (probe subclass of the real matcher)',
          'general pool + memo pool x 5 documents', timeout={'quick': 100, 'thorough': 600},
